@@ -31,6 +31,9 @@ EXPLANATION += (' ' + 'ELEM/schema-child and ELEM/schema-attr (sa/xmltags.py, sa
 TRUSTED = ['ElementTree API types', 'circle-of-fifths / letter oracle', 'constant folding']
 NOT_DECIDED = ['onset/duration values', 'time-signature repair of partial measures', '.text on a possibly missing child (AttributeError) for ill-formed scores - outside the quantifier (well-formed scores)']
 ASSUMPTIONS = []
+# rules whose verdict does not depend on how the statements are arranged (semantic analyses); all other rules are shape rules:
+# when one of those fails in a function that was restructured relative to reference/signatures.json the verdict is "cannot decide"
+ROBUST = ('ELEM/schema-child', 'ELEM/schema-attr', 'STATE/per-object', 'KIND')
 FLOORS = {'STATE/part-reset': 4, 'ELEM/schema-child': 70, 'ELEM/schema-attr': 8, 'ELEM': 12, 'PITCH': 6, 'CONV': 8, 'KEY': 17, 'KIND': 40, 'FIG': 2, 'CONTAIN': 4}
 
 LETTER_PC = {'C': 0, 'D': 2, 'E': 4, 'F': 5, 'G': 7, 'A': 9, 'B': 11}
